@@ -34,6 +34,17 @@ BEHAV = ["pass", "stop", "raise", "reg", "redispatch"]
 
 def gen(S, tier):
     w = S("workload")
+    if S("config").chance(0.15):
+        # application-level class: listeners registered through ApplicationConfig.add_event_listener,
+        # dispatched by real runs (PRE_RESOLVE in ConsoleApplication.resolve_command, PRE_HANDLE in Command)
+        ops = []
+        for _ in range(w.randint(2, 14)):
+            if w.chance(0.6):
+                ops.append(["reg", w.randrange(2), w.pick(PRIOS), w.weighted([("pass", 5), ("stop", 1)])])
+            else:
+                ops.append(["run"])
+        ops.append(["run"])
+        return {"class": "app", "ops": ops}
     n = w.randint(1, 40)
     p_fault = w.pick([0.0, 0.05, 0.15, 0.3])
     p_stop = w.pick([0.0, 0.1, 0.3])
@@ -69,6 +80,11 @@ def gen(S, tier):
 
 
 def simplify(sc):
+    if sc.get("class") == "app":
+        for i, op in enumerate(sc["ops"]):
+            if op[0] == "reg" and op[2] != 0:
+                yield dict(sc, ops=sc["ops"][:i] + [[op[0], op[1], 0, op[3]]] + sc["ops"][i + 1:])
+        return
     for i, op in enumerate(sc["ops"]):
         if op[0] == "reg" and op[3] not in ("pass",):
             c = dict(sc)
@@ -84,9 +100,83 @@ class _Abort(Exception):
     pass
 
 
+def _execute_app(sc):
+    from clikit import ConsoleApplication
+    from clikit.api.event import PRE_HANDLE, PRE_RESOLVE
+    from clikit.args import ArgvArgs
+    from clikit.config import DefaultApplicationConfig
+    from ..streams import EventLog, SimInputStream, SimOutputStream
+
+    res = Result()
+    log = res.events
+    config = DefaultApplicationConfig("app", "1.0")
+    config.set_terminate_after_run(False)
+    ran = []
+
+    class H(object):
+        def handle(self, args, io, command):
+            ran.append("handler")
+            return 0
+
+    config.create_command("go").set_description("go").set_handler(H())
+    app = ConsoleApplication(config)
+    names = [PRE_RESOLVE, PRE_HANDLE]
+    # the default configuration registered one listener per event itself (priority 0, first)
+    regs = [{"event": 0, "prio": 0, "seq": 0, "lid": -1, "stop": False}, {"event": 1, "prio": 0, "seq": 0, "lid": -2, "stop": False}]
+    seq = [0]
+    calls = []
+    runs = 0
+    for op in sc["ops"]:
+        res.steps += 1
+        if op[0] == "reg":
+            _, ev, prio, b = op
+            lid = len(regs)
+            seq[0] += 1
+
+            def listener(event, event_name, dispatcher, _lid=lid, _b=b, _ev=ev):
+                calls.append((_lid, event_name))
+                if _b == "stop":
+                    event.stop_propagation()
+
+            config.add_event_listener(names[ev], listener, prio)
+            regs.append({"event": ev, "prio": prio, "seq": seq[0], "lid": lid, "stop": b == "stop"})
+            if runs:
+                res.probe("register_after_dispatch")
+            log.append(("reg", ev, prio, b))
+        elif op[0] == "run":
+            del calls[:]
+            del ran[:]
+            elog = EventLog()
+            try:
+                status = app.run(ArgvArgs(["prog", "go"]), SimInputStream(elog, []), SimOutputStream("o", elog, ansi=False), SimOutputStream("e", elog, ansi=False))
+            except BaseException as e:
+                res.violate("op_raised", "run", "%s: %s" % (type(e).__name__, e))
+                break
+            runs += 1
+            want = []
+            for ev in (0, 1):
+                for r in sorted((r for r in regs if r["event"] == ev), key=lambda r: (-r["prio"], r["seq"])):
+                    if r["lid"] >= 0:
+                        want.append((r["lid"], names[ev]))
+                    if r["stop"]:
+                        if any(x["event"] == ev for x in regs if (-x["prio"], x["seq"]) > (-r["prio"], r["seq"])):
+                            res.probe("stop_in_middle")
+                        break
+            log.append(("run", status, list(calls)))
+            if calls != want:
+                res.violate("dispatch_sequence", "application_run", "run called listeners %r, expected %r" % (calls, want))
+            if ran != ["handler"] or status != 0:
+                res.violate("dispatch_sequence", "handler", "handler calls %r status %r" % (ran, status))
+    res.states.add(tuple(sorted((r["event"], r["prio"], r["stop"]) for r in regs)))
+    res.nontrivial = runs >= 2 and len(regs) >= 4
+    return res
+
+
 def execute(sc):
     from clikit.api.event import Event, EventDispatcher
 
+    if sc.get("class") == "app":
+        return _execute_app(sc)
     res = Result()
     log = res.events
     d = EventDispatcher()
